@@ -202,6 +202,9 @@ def execute(plan, tape):
     parsers = {}            # client -> its long-lived SmtLibParser
     models = {}             # client -> its long-lived (partial) EagerModel
     registrations = []      # generic solvers registered with the aged environment's factory
+    rewriters = {}          # (client, kind) -> its long-lived PrenexNormalizer / NNFizer
+    second_env = Environment()      # an aged environment that is never the current one
+    _register_xnode(second_env)
     dwf_regs = []           # dynamic walker functions registered with the aged environment
     late_decls = []         # fresh-looking names the user declared in mid-history
 
@@ -231,7 +234,7 @@ def execute(plan, tape):
                 elif sig2[0] == k and sig2[1] != json.dumps({a: b for a, b in spec.items() if a not in ("client",)}, sort_keys=True):
                     nontrivial = True
                     probe("same_formula_different_arguments")
-        key = json.dumps({a: b for a, b in spec.items() if a not in ("client", "_dict", "_parser", "_foreign", "_others", "_first", "_first_out", "_model", "_bad_entry")}, sort_keys=True)
+        key = json.dumps({a: b for a, b in spec.items() if a not in ("client", "_dict", "_parser", "_foreign", "_others", "_first", "_first_out", "_model", "_bad_entry", "_rewriter", "_other_env")}, sort_keys=True)
         touched.append((spec["client"], subcache[i], (k, key)))
         if len(touched) > 40:
             touched.pop(0)
@@ -255,6 +258,16 @@ def execute(plan, tape):
                 else:
                     spec["_bad_entry"] = (bp.build(kt0, foreign_env), bp.build(kt0, env))
                 probe("shared_dict_with_refusable_entry")
+        if k == "rewriter_long":
+            import pysmt.rewritings as rw_
+            rk = (spec["client"], spec["which"])
+            if rk not in rewriters:
+                rewriters[rk] = rw_.PrenexNormalizer(env) if spec["which"] == "prenex" else rw_.NNFizer(env)
+            else:
+                probe("long_lived_rewriter_reused")
+            spec["_rewriter"] = rewriters[rk]
+        if k == "build_noncurrent":
+            spec["_other_env"] = second_env
         if k == "model_value_shared":
             if spec["client"] not in models:
                 models[spec["client"]] = calls.partial_model(env, symbols)
@@ -315,6 +328,14 @@ def execute(plan, tape):
                 if k == "script_serialize":
                     fspec = dict(spec)
                     fspec["_others"] = [bp.build(pool[j % len(pool)], fresh) for j in spec.get("others", [])]
+                if k == "rewriter_long":
+                    import pysmt.rewritings as rw_
+                    fspec = dict(spec)
+                    fspec["_rewriter"] = rw_.PrenexNormalizer(fresh) if spec["which"] == "prenex" else rw_.NNFizer(fresh)
+                if k == "build_noncurrent":
+                    fspec = dict(spec)
+                    fspec["_other_env"] = Environment()
+                    _register_xnode(fspec["_other_env"])
                 if k == "parse_long":
                     from pysmt.smtlib.parser import SmtLibParser
                     fspec = dict(spec)
@@ -353,7 +374,7 @@ def execute(plan, tape):
             late_decls.append(spec["name"])
             user.add(spec["name"])
             probe("freshlike_symbol_declared_late")
-        for k_ in ("_dict", "_parser", "_foreign", "_others", "_first", "_first_out", "_model", "_bad_entry"):
+        for k_ in ("_dict", "_parser", "_foreign", "_others", "_first", "_first_out", "_model", "_bad_entry", "_rewriter", "_other_env"):
             spec.pop(k_, None)
         if aged_build != fresh_build:
             raise Violation("C14:build:history-dependent",
@@ -379,6 +400,12 @@ def execute(plan, tape):
                 raise Violation("C14:%s:foreign-result" % k,
                                 "step %d: %s(pool[%d]) in the %s environment returned a formula of another environment's manager" %
                                 (step, k, i, lab_))
+        for out_ in (aged, spec_out):
+            if out_[0] == "ok" and isinstance(out_[2], tuple) and out_[2] and out_[2][0] == "closer-logic-wrong":
+                raise Violation("C14:closer_logic:wrong", "step %d: %s" % (step, out_[2][1]))
+            if k == "build_noncurrent" and out_[0] == "exc" and out_[1] == "PysmtTypeError":
+                raise Violation("C14:build_noncurrent:refused",
+                                "step %d: pool[%d] is well typed but building it through the manager of an environment that is not the current one raised PysmtTypeError" % (step, i))
         for out_ in (aged, spec_out):
             if out_[0] == "ok" and isinstance(out_[2], tuple) and out_[2] and out_[2][0] == "factory-preferences-foreign":
                 raise Violation("C14:factory:preferences-shared",
